@@ -2544,7 +2544,7 @@ func apiutil2Path(path *apiutil.Path, isVRFTable bool, isWithdraw ...bool) (*tab
 	// need to check if update with SR Policy nlri comes with mandatory route distinguisher
 	// extended community or NO_ADVERTISE community, with Tunnel Encapsulation Attribute 23
 	// and tunnel type 15. If it is not the case ignore update and log an error.
-	var nexthop netip.Addr
+	var nexthop, linkLocalNexthop netip.Addr
 	isMPFlowSpec := false
 	pattrs := make([]bgp.PathAttributeInterface, 0)
 	seen := make(map[bgp.BGPAttrType]struct{})
@@ -2564,6 +2564,7 @@ func apiutil2Path(path *apiutil.Path, isVRFTable bool, isWithdraw ...bool) (*tab
 			}
 			isMPFlowSpec = mp.SAFI == bgp.SAFI_FLOW_SPEC_UNICAST || mp.SAFI == bgp.SAFI_FLOW_SPEC_VPN
 			nexthop = mp.Nexthop
+			linkLocalNexthop = mp.LinkLocalNexthop
 		default:
 			pattrs = append(pattrs, a)
 		}
@@ -2576,7 +2577,7 @@ func apiutil2Path(path *apiutil.Path, isVRFTable bool, isWithdraw ...bool) (*tab
 		attr, _ := bgp.NewPathAttributeNextHop(nexthop)
 		pattrs = append(pattrs, attr)
 	} else {
-		attr, _ := bgp.NewPathAttributeMpReachNLRI(path.Family, []bgp.PathNLRI{{NLRI: path.Nlri}}, nexthop)
+		attr, _ := bgp.NewPathAttributeMpReachNLRI(path.Family, []bgp.PathNLRI{{NLRI: path.Nlri}}, nexthop, linkLocalNexthop)
 		pattrs = append(pattrs, attr)
 	}
 
